@@ -1385,10 +1385,7 @@ func (fg *FuncGen) assumeObjInv(v Val, st *State, post bool) {
 		return
 	}
 	// not one of the objects this function allocates itself (they may be under construction)
-	var own []string
-	for _, r := range fg.ownAllocs {
-		own = append(own, fmt.Sprintf("(not (= %s %s))", v.T, r))
-	}
+	own := fg.ownGuards(v)
 	guard := and(append([]string{fmt.Sprintf("(not (= %s 0))", v.T)}, own...)...)
 	if dirty {
 		a0 := fg.allocTerm(fg.entry)
@@ -1415,10 +1412,7 @@ func (fg *FuncGen) assumeObjInvIn(v Val, st *State) {
 		return
 	}
 	fg.invAssumed[key] = true
-	var own []string
-	for _, r := range fg.ownAllocs {
-		own = append(own, fmt.Sprintf("(not (= %s %s))", v.T, r))
-	}
+	own := fg.ownGuards(v)
 	guard := and(append([]string{fmt.Sprintf("(not (= %s 0))", v.T)}, own...)...)
 	fg.inInv = true
 	inv := fg.invTerm(ct, v.Typ, v.T, st)
